@@ -67,6 +67,7 @@ class CallState:
         self.exit_exc = None       # class of the exception leaving request_handler ('BaseException' | 'Exception' | None)
         self.pstream = None        # server protocol.Stream
         self.cstream = None        # client Stream (for its wrapper's task set)
+        self.rst_delivered = False # a client RST_STREAM for this call was delivered to the server
 
 
 class Run:
@@ -85,6 +86,8 @@ class Run:
         self.notes = []
         self.checks = []           # oracle findings collected at checkpoints
         self.held = {}             # client set-up: RST written at context exit, reported after the X op
+        self.h2_dirty = False      # an RST queued by the client's h2 API has not been taken by data_to_send yet
+        self.unobservable = []     # components that could not be located by role on this source tree
 
     def op(self, tok, exp):
         if self.enabled:
@@ -105,6 +108,8 @@ class Run:
                 self.op('S', '-')
             else:
                 self.op(('d:%d' if d == 'c2s' else 'D:%d') % it[1], '-')
+                if d == 'c2s' and it[0] == 'R':
+                    self.st[it[1]].rst_delivered = True     # a client RST_STREAM reached the server
 
     def written(self, d, entries):
         """a transport write carried these entries; frames that had been held back in the client's h2
@@ -131,10 +136,113 @@ def is_trailers(headers):
     return None
 
 
+
+# ---- finding things by ROLE, not by (private) name -------------------------------------------------
+
+def find_h2(proto):
+    """the H2Connection this protocol drives: the attribute (of the protocol's connection object, else
+    of the protocol or its processor) whose value IS an h2.connection.H2Connection"""
+    from h2.connection import H2Connection
+    for holder in (getattr(proto, 'connection', None), proto, getattr(proto, 'processor', None)):
+        if holder is None:
+            continue
+        try:
+            vals = list(vars(holder).values())
+        except TypeError:
+            continue
+        for v in vals:
+            if isinstance(v, H2Connection):
+                return v
+    return None
+
+
+def tasks_in(coll):
+    """asyncio tasks held by a collection attribute (as elements, keys or values)"""
+    out = []
+    try:
+        items = list(coll.values()) + list(coll.keys()) if isinstance(coll, dict) else list(coll)
+    except Exception:
+        return out
+    for x in items:
+        if isinstance(x, asyncio.Future) and hasattr(x, 'get_coro'):
+            out.append(x)
+    return out
+
+
+def task_collections(obj):
+    """{attribute name: [tasks]} for every collection attribute of obj that currently holds tasks"""
+    out = {}
+    try:
+        items = list(vars(obj).items())
+    except TypeError:
+        return out
+    for name, val in items:
+        if isinstance(val, (dict, set, frozenset, list, tuple)) or type(val).__name__ in ('deque', 'WeakSet'):
+            ts = tasks_in(val)
+            if ts:
+                out[name] = ts
+    return out
+
+
+def find_wrappers(obj):
+    """the per-call cancellation wrappers reachable from a client Stream / protocol stream: attribute values
+    that are grpclib.utils.Wrapper instances"""
+    from grpclib.utils import Wrapper
+    try:
+        return [v for v in vars(obj).values() if isinstance(v, Wrapper)]
+    except TypeError:
+        return []
+
+
+class ServerStandIn:
+    """what grpclib.Server needs from the object loop.create_server returns"""
+    def close(self):
+        pass
+
+    async def wait_closed(self):
+        pass
+
+
+def server_factory(loop, server):
+    """Server.start() through its public API: the loop's create_server tells us the protocol factory"""
+    got = {}
+
+    async def create_server(factory, *a, **kw):
+        got['factory'] = factory
+        return ServerStandIn()
+    loop.create_server = create_server
+    try:
+        t = loop.create_task(server.start('127.0.0.1', 0))
+        loop.run_quiet(0.0)
+        if not t.done() or t.exception() is not None or 'factory' not in got:
+            raise RuntimeError('Server.start() did not complete on the virtual loop')
+    finally:
+        del loop.create_server
+    return got['factory']
+
+
+def warm_up(run, loop, channel):
+    """open the connection through the public API: one untraced unary call"""
+    run.enabled = False
+    m = UnaryUnaryMethod(channel, '/v.S/U', bytes, bytes)
+    t = loop.create_task(m(b'warm', metadata=[('x-call', 'warm')]))
+    loop.run_quiet(0)
+    run.enabled = True
+    o = vloop.outcome(t)
+    if o != ('ok', b'probe-reply'):
+        raise RuntimeError('connection set-up failed: %r' % (o,))
+
+
+class Unobservable(Exception):
+    """the scenario cannot be observed on this source tree (an object could not be located by role)"""
+
+
 # ---- instrumentation (logging only) ---------------------------------------------------------------
 
 def wrap_client(run, cproto):
-    ch2 = cproto.connection._connection
+    ch2 = find_h2(cproto)
+    if ch2 is None:
+        raise Unobservable('client h2 connection')
     proc = cproto.processor
     st = run.st
     o_sh, o_sd, o_rs, o_reg = ch2.send_headers, ch2.send_data, ch2.reset_stream, proc.register
@@ -197,6 +305,7 @@ def wrap_client(run, cproto):
             run.op('x:%d' % c, '-')
         # an RST written at context exit belongs to the X op (the model emits it there); when writing is
         # paused reset_nowait leaves it in h2's buffer until the next write of any kind
+        run.h2_dirty = True
         if st[c].in_cancel:
             run.sent('c2s', ('R', c))
         else:
@@ -219,13 +328,23 @@ def wrap_client(run, cproto):
             rel()
         return release
 
+    o_dts = ch2.data_to_send
+
+    def data_to_send(*a, **kw):
+        # h2's public API: whatever the client's API calls queued leaves h2's send buffer here
+        run.h2_dirty = False
+        return o_dts(*a, **kw)
+
     ch2.send_headers, ch2.send_data, ch2.reset_stream = send_headers, send_data, reset_stream
     ch2.end_stream = end_stream
+    ch2.data_to_send = data_to_send
     proc.register = register
 
 
 def wrap_server(run, sproto):
-    sh2 = sproto.connection._connection
+    sh2 = find_h2(sproto)
+    if sh2 is None:
+        raise Unobservable('server h2 connection')
     proc = sproto.processor
     handler = sproto.handler
     st = run.st
@@ -294,7 +413,14 @@ def wrap_server(run, sproto):
                 # __aexit__ while send_trailing_metadata was waiting for write_ready (D48).  No exception
                 # context and no recorded end = the task was cancelled before its first step.
                 exc = sys.exc_info()[1]
+                s.reset_before_exit = s.rst_delivered      # a client RST had reached the server by now
                 s.exit_exc = None if exc is None else ('Exception' if isinstance(exc, Exception) else 'BaseException')
+                ht = getattr(s, 'htask', None)
+                if exc is None and ht is not None and ht.done():
+                    # released from a done-callback: the task's own outcome tells how request_handler ended
+                    te = None if ht.cancelled() else ht.exception()
+                    if ht.cancelled() or (te is not None and not isinstance(te, Exception)):
+                        s.exit_exc = 'BaseException'
                 if s.exit_exc == 'BaseException' or s.hend is None:
                     kind = 'base'
                 elif s.exit_trailers == 'nonok':
@@ -306,7 +432,11 @@ def wrap_server(run, sproto):
                 s.kind = kind
                 s.sh_at_exit = letter(stream.id)
                 run.op('q:%d:%s' % (c, kind), '-')
-        return o_accept(stream, headers, release)
+        before = asyncio.all_tasks()
+        r = o_accept(stream, headers, release)
+        new = [x for x in asyncio.all_tasks() if x not in before]
+        st[c].htask = new[0] if len(new) == 1 else None
+        return r
 
     sh2.send_headers, sh2.reset_stream = send_headers, reset_stream
     handler.accept = accept
@@ -490,9 +620,9 @@ def snapshot(run, env, final=False):
         'final': final,
         't': env['loop'].time(),
         'paused': not env['cproto'].connection.write_ready.is_set(),
-        # bytes waiting in the client's h2 send buffer (nothing else is ever left there between loop
-        # iterations: every other API call is followed by a write)
-        'buffered': len(getattr(ch2, '_data_to_send', b'')) > 0,
+        # an RST_STREAM queued through h2's public API and not yet taken by data_to_send() (nothing else
+        # is ever left there between loop iterations: every other API call is followed by a write)
+        'buffered': run.h2_dirty,
         'held': run.held_calls(),
         'pending_tasks': [c for c in range(run.n) if st[c].task is not None and not st[c].task.done()],
         'released': [c for c in range(run.n) if st[c].released],
@@ -546,24 +676,22 @@ def run_link(case):
     run = Run(len(calls), 'link')
     with vloop.session() as loop:
         server = Server([make_service(run, calls)], codec=RawCodec())
-        channel = Channel(codec=RawCodec())
+        sfactory = server_factory(loop, server)
+        channel = Channel('127.0.0.1', 50051, codec=RawCodec())
         env = {'loop': loop}
 
-        async def create():
-            cp, sp = channel._protocol_factory(), server._protocol_factory()
+        async def create_connection(factory, *a, **kw):
+            # asyncio's public loop API is where the Channel asks for a transport
+            cp, sp = factory(), sfactory()
             link = TLink(loop, cp, sp, make_cutter(case.get('cut_seed', 0), case.get('cut', 'none')), run)
             sp.connection_made(link.tb)
             cp.connection_made(link.ta)
-            env.update(cproto=cp, sproto=sp, link=link, ch2=cp.connection._connection,
-                       sh2=sp.connection._connection)
-            return cp
-        channel._create_connection = create
-        t0 = loop.create_task(channel.__connect__())
-        loop.run_quiet(0)
-        if not t0.done() or 'cproto' not in env:
-            raise RuntimeError('connection set-up failed')
-        wrap_client(run, env['cproto'])
-        wrap_server(run, env['sproto'])
+            env.update(cproto=cp, sproto=sp, link=link, ch2=find_h2(cp), sh2=find_h2(sp))
+            wrap_client(run, cp)
+            wrap_server(run, sp)
+            return link.ta, cp
+        loop.create_connection = create_connection
+        warm_up(run, loop, channel)
         run.maxc0 = env['ch2'].remote_settings.max_concurrent_streams
 
         env['ctransport'] = env['link'].ta
@@ -623,17 +751,21 @@ def run_client(case):
     calls = case['calls']
     run = Run(len(calls), 'client')
     with vloop.session() as loop:
-        ce = wire.ClientEnd(loop)
-        channel = ce.channel
+        channel = Channel('127.0.0.1', 50051, codec=RawCodec())
         env = {'loop': loop, 'sproto': None}
-        t0 = loop.create_task(channel.__connect__())
-        loop.run_quiet(0)
-        if not t0.done() or not ce.conns:
-            raise RuntimeError('connection set-up failed')
-        cproto, tr, peer = ce.conns[-1]
-        env.update(cproto=cproto, ch2=cproto.connection._connection, sh2=peer.h2, peer=peer)
-        wrap_client(run, cproto)
-        run.maxc0 = env['ch2'].remote_settings.max_concurrent_streams
+        peer = P.Peer(client_side=False)
+
+        async def create_connection(factory, *a, **kw):
+            proto = factory()
+            tr = wire.MemTransport(proto, loop, on_write=lambda d: on_write(d))
+            peer.attach(tr)
+            peer.start()
+            proto.connection_made(tr)
+            peer.flush()
+            env.update(cproto=proto, ch2=find_h2(proto), sh2=peer.h2, peer=peer, ctransport=tr)
+            wrap_client(run, proto)
+            return tr, proto
+        loop.create_connection = create_connection
         psid = {}
 
         def popen(sid):
@@ -701,9 +833,9 @@ def run_client(case):
                     run.st[c].accepted = True
                     for delay, what in calls[c]['server']:
                         loop.call_later(float(delay), peer_act, c, what)
-        tr.on_write = on_write
-
-        env['ctransport'] = tr
+        warm_up(run, loop, channel)
+        cproto, tr = env['cproto'], env['ctransport']
+        run.maxc0 = env['ch2'].remote_settings.max_concurrent_streams
 
         def announce(n, extra=None):
             run.op('s:%d' % n, '-')
@@ -749,27 +881,42 @@ def run_client(case):
 
 def aggregate(run, handler):
     """bookkeeping that must not grow with the number of finished calls (read from outside, after the
-    history): the server Handler's `_tasks` / `_cancelled` (pruned by every 10th accept and by an explicit
-    collect) and the task sets of the per-call wrappers on both sides"""
-    a = {'client_wrappers': [], 'server_wrappers': []}
+    history).  Nothing is looked up by name: the server Handler's task table / cancelled collection are
+    whatever collection attributes of the handler hold asyncio tasks; the per-call wrappers are the
+    grpclib.utils.Wrapper instances hanging off the client Stream / the server's protocol stream, and their
+    task sets whatever collection attributes of those hold tasks.  `check_closed()` (public) runs the
+    collect step.  What cannot be located is reported as unobservable, never as a failure."""
+    a = {'client_wrappers': [], 'server_wrappers': [], 'wrappers_seen': 0}
     for c, s in enumerate(run.st):
-        w = getattr(s.cstream, '_wrapper', None)
-        if s.exited and w is not None and len(w._tasks):
-            a['client_wrappers'].append(c)
-        w = getattr(s.pstream, 'wrapper', None)
-        if s.released and w is not None and len(w._tasks):
-            a['server_wrappers'].append(c)
+        for side, obj, done in (('client_wrappers', s.cstream, s.exited), ('server_wrappers', s.pstream, s.released)):
+            if obj is None or not done:
+                continue
+            for w in find_wrappers(obj):
+                a['wrappers_seen'] += 1
+                if task_collections(w):
+                    a[side].append(c)
+    if a['wrappers_seen'] == 0 and any(s.cstream is not None for s in run.st):
+        run.unobservable.append('per-call wrapper')
     if handler is not None:
-        entries = list(handler._tasks.values()) + list(handler._cancelled)
+        before = task_collections(handler)
+        seen = {id(t): t for ts in before.values() for t in ts}
         a.update(accepted=sum(1 for s in run.st if s.accepted),
-                 tasks_before=len(handler._tasks), cancelled_before=len(handler._cancelled),
-                 finished_before=sum(1 for t in entries if t.done()))
-        handler.__gc_collect__()                      # one more GC step
-        a.update(tasks_after=len(handler._tasks), cancelled_after=len(handler._cancelled),
-                 finished_tasks_after=sum(1 for t in handler._tasks.values() if t.done()),
-                 finished_cancelled_after=sum(1 for t in handler._cancelled if t.done()),
-                 unfinished_after=sum(1 for t in list(handler._tasks.values()) + list(handler._cancelled) if not t.done()),
-                 check_closed=handler.check_closed())
+                 containers=sorted(before), entries_before=sum(len(ts) for ts in before.values()),
+                 finished_before=sum(1 for ts in before.values() for t in ts if t.done()))
+        check_closed = getattr(handler, 'check_closed', None)
+        if callable(check_closed):
+            a['check_closed'] = bool(check_closed())          # one more GC step
+        else:
+            run.unobservable.append('Handler.check_closed')
+        after = task_collections(handler)
+        a.update(entries_after=sum(len(ts) for ts in after.values()),
+                 finished_after={n: sum(1 for t in ts if t.done()) for n, ts in after.items()
+                                 if any(t.done() for t in ts)},
+                 unfinished_after=sum(1 for ts in after.values() for t in ts if not t.done()))
+        # handler tasks of this run are known from the public side: every accept created exactly one
+        run_tasks = [s.htask for s in run.st if getattr(s, 'htask', None) is not None]
+        if run_tasks and not before and not all(t.done() for t in run_tasks):
+            run.unobservable.append('Handler task containers')   # live handler tasks, yet no container holds them
     run.agg = a
 
 
@@ -793,13 +940,12 @@ def probe(run, env, channel, set_limit_1):
 def leak_class(run, c):
     s = run.st[c]
     frame = 'none' if not (s.s_end_sent or s.s_rst_sent) else ('end' if s.s_end_sent else 'rst')
-    werr = getattr(getattr(s.pstream, 'wrapper', None), '_error', None)
     hend = s.hend or ('BaseException' if s.released else 'running')   # never ran = cancelled before its first step
     # the handler body had ended (returned / raised an Exception) and a BaseException still left
     # request_handler: the cancellation hit Stream.__aexit__ while it was sending the terminal response
     interrupted = s.hend in ('return', 'Exception') and s.exit_exc == 'BaseException'
     return {'handler_end': hend, 'terminal_frame': frame,
-            'reset_received': isinstance(werr, StreamTerminatedError), 'aexit_interrupted': interrupted}
+            'reset_received': bool(getattr(s, 'reset_before_exit', False)), 'aexit_interrupted': interrupted}
 
 
 def check(run, snap):
